@@ -89,6 +89,7 @@ type Call struct {
 	R string            `json:"result"` // ok | notfound | invalid | err | timeout
 	E string            `json:"error,omitempty"`
 	S string            `json:"signature_in_reply,omitempty"` // what the reply was recognised as (65-byte signature / transaction signed by a keystore account)
+	U string            `json:"unattributed,omitempty"`       // a counter movement during the call that did not repeat on re-issue: undecided
 	Q string            `json:"request,omitempty"`            // the method string as sent, when it differs from the resolved method
 }
 
@@ -423,6 +424,27 @@ func recogniseSignature(res json.RawMessage, accountsOfKeystore []common.Address
 	return ""
 }
 
+// settleCounter stops the miner and waits until the keystore counter has been stable for a while (bounded)
+func settleCounter(env *c18node.Env, sealing bool) {
+	// after StopMining no new Seal is started (worker.push checks the mining flag); a seal already under
+	// way has signed before it starts waiting for its block time, so a short stable period is enough, and
+	// the real guard is that a movement must REPEAT on re-issue to be attributed
+	quiet := 60 * time.Millisecond
+	if sealing {
+		quiet = 500 * time.Millisecond
+	}
+	last, since, start := keystore.VerifSignCount(), time.Now(), time.Now()
+	for time.Since(since) < quiet && time.Since(start) < 10*time.Second {
+		if env.Aqua.IsMining() {
+			env.Aqua.StopMining()
+		}
+		time.Sleep(25 * time.Millisecond)
+		if n := keystore.VerifSignCount(); n != last {
+			last, since = n, time.Now()
+		}
+	}
+}
+
 func looksLikeSigner(m rpc.VerifMethod) bool {
 	l := strings.ToLower(m.GoName)
 	return rpc.VerifIsProtectedMethodName(m.GoName) || strings.Contains(l, "sign") || strings.Contains(l, "sendtransaction") || strings.Contains(l, "resend")
@@ -655,23 +677,40 @@ func childMain(specPath string) {
 				args[i] = p
 			}
 			inflight("call " + name)
-			before := keystore.VerifSignCount()
 			t0 := time.Now()
-			ctx, cancel := context.WithTimeout(context.Background(), 8*time.Second)
-			var res json.RawMessage
 			rpcName := name
 			if i := strings.Index(name, "_subscribe:"); i >= 0 {
 				rpcName = name[:i] + "_subscribe"
 			}
-			err := cl.CallContext(ctx, &res, rpcName, args...)
-			cancel()
-			if r0, _ := classify(err); wait > 0 && r0 != "notfound" && r0 != "invalid" { // asynchronous signing (block sealing): poll the counter
-				deadline := time.Now().Add(wait)
-				for time.Now().Before(deadline) && keystore.VerifSignCount() == before {
-					time.Sleep(50 * time.Millisecond)
+			// one issue of the request: reply, error, and how far the keystore counter moved meanwhile
+			issue := func() (json.RawMessage, error, uint64) {
+				before := keystore.VerifSignCount()
+				ctx, cancel := context.WithTimeout(context.Background(), 8*time.Second)
+				var res json.RawMessage
+				err := cl.CallContext(ctx, &res, rpcName, args...)
+				cancel()
+				if r0, _ := classify(err); wait > 0 && r0 != "notfound" && r0 != "invalid" { // asynchronous signing (block sealing): poll the counter
+					deadline := time.Now().Add(wait)
+					for time.Now().Before(deadline) && keystore.VerifSignCount() == before {
+						time.Sleep(50 * time.Millisecond)
+					}
+				}
+				return res, err, keystore.VerifSignCount() - before
+			}
+			res, err, delta := issue()
+			unattributed := ""
+			if delta > 0 {
+				// A movement is attributed to THIS call only if it repeats: let whatever may still be running
+				// settle (miner stopped, counter stable), issue the same request again, and require a second
+				// movement.  Otherwise the movement is recorded as unattributed (undecided), never as a verdict.
+				settleCounter(env, wait > 0)
+				_, _, d2 := issue()
+				if d2 == 0 {
+					unattributed = fmt.Sprintf("the keystore counter moved by %d while %s was in flight but not when the same request was issued again", delta, name)
+					delta = 0
 				}
 			}
-			after := keystore.VerifSignCount()
+			before, after := uint64(0), delta
 			if d := time.Since(t0); d > 300*time.Millisecond && os.Getenv("C18_CHILD_LOG") != "" {
 				fmt.Fprintln(os.Stderr, "SLOW", tr, name, label, d)
 			}
@@ -680,7 +719,7 @@ func childMain(specPath string) {
 			if err == nil {
 				sig = recogniseSignature(res, []common.Address{env.Unlocked, env.Locked})
 			}
-			to.Calls = append(to.Calls, Call{M: name, V: label, P: params, D: after - before, R: r, E: e, S: sig})
+			to.Calls = append(to.Calls, Call{M: name, V: label, P: params, D: after - before, R: r, E: e, S: sig, U: unattributed})
 			if env.Aqua.IsMining() {
 				env.Aqua.StopMining()
 				time.Sleep(20 * time.Millisecond)
@@ -688,7 +727,7 @@ func childMain(specPath string) {
 			if wait > 0 && r != "notfound" && r != "invalid" {
 				// let a seal that is already under way finish, so that it cannot be attributed to the next call
 				last, since := keystore.VerifSignCount(), time.Now()
-				for time.Since(since) < 1100*time.Millisecond {
+				for time.Since(since) < 500*time.Millisecond {
 					time.Sleep(50 * time.Millisecond)
 					if env.Aqua.IsMining() {
 						env.Aqua.StopMining()
@@ -856,10 +895,26 @@ func childMain(specPath string) {
 					// attribute: every element again as a batch of one
 					var sum uint64
 					for _, name := range chunk {
-						sum += runBatch([]string{name}, "batch-of-one")
+						settleCounter(env, false)
+						d1 := runBatch([]string{name}, "batch-of-one")
+						if d1 > 0 {
+							// confirm: the movement must repeat
+							settleCounter(env, false)
+							if d2 := runBatch([]string{name}, "batch-of-one"); d2 == 0 {
+								// neither of the two records carries an attributed movement
+								for k := len(to.Calls) - 2; k < len(to.Calls); k++ {
+									if k >= 0 && to.Calls[k].M == name {
+										to.Calls[k].D = 0
+									}
+								}
+								to.Calls[len(to.Calls)-1].U = fmt.Sprintf("the keystore counter moved by %d during a batch of one with %s but not when it was sent again", d1, name)
+								d1 = 0
+							}
+						}
+						sum += d1
 					}
 					if sum == 0 {
-						to.Calls = append(to.Calls, Call{M: "batch:" + strings.Join(chunk, "+"), V: "batch", D: d, R: "ok"})
+						to.Calls = append(to.Calls, Call{M: "batch:" + strings.Join(chunk, "+"), V: "batch", D: 0, R: "ok", U: fmt.Sprintf("the keystore counter moved by %d during a batch but for no element when re-sent alone", d)})
 					}
 				}
 			}
@@ -1141,12 +1196,12 @@ func evaluate(c *vh.Ctx, m *vh.Model, sc Scenario, out *ChildOut) {
 				class += "/alias"
 			}
 			c.Eval(class, fmt.Sprintf("%s|%s|%s|%s|%v", sc.Name, tr, call.M, call.V, call.D > 0))
+			if call.U != "" {
+				// a counter movement that could not be attributed to this request (it did not repeat): undecided
+				c.Count("undecided: unattributed keystore counter movement")
+				c.Note("%s %s %s: %s", sc.Name, tr, call.M, call.U)
+			}
 			if strings.HasPrefix(call.M, "batch:") {
-				// a batch moved the counter but no single element did when re-sent alone
-				c.Correspond("keystore counter moved => m_signs", sc.Name+" "+tr+" "+call.M, "attributable", "unattributed")
-				if !optedIn {
-					worst[call.M] = call
-				}
 				continue
 			}
 			// what the model says this request resolves to (json.go parse + server.go readRequest)
@@ -1260,7 +1315,14 @@ func evaluateFuzz(c *vh.Ctx, m *vh.Model, sc Scenario, out *ChildOut, flags stri
 	for _, fc := range out.Fuzz {
 		if fc.Undecided != "" {
 			c.Count("fuzz/undecided (" + strings.SplitN(fc.Undecided, ":", 2)[0] + ")")
+			if len(fc.Reqs) > 0 {
+				c.Note("%s fuzz %s undecided (%s): batch=%v first request %q [%s] of %d", sc.Name, fc.Where, fc.Undecided, fc.Batch, fc.Reqs[0].Method, fc.Reqs[0].Class, len(fc.Reqs))
+			}
 			continue
+		}
+		if fc.Unattributed != "" {
+			c.Count("undecided: unattributed keystore counter movement")
+			c.Note("%s fuzz %s: %s", sc.Name, fc.Where, fc.Unattributed)
 		}
 		var toks []string
 		for _, q := range fc.Reqs {
